@@ -789,7 +789,9 @@ def apply_contract(E, st, c, selfv, args, kwargs):
             ok = True
             for e in c.ensures:
                 props, _txt = clause_props(e)
-                if props is not None and E.prop not in props and not c.assumed:
+                if props is not None and props == {"def"}:
+                    pass  # a ghost definition: names (part of) the callee's result, nothing to prove
+                elif props is not None and E.prop not in props and not c.assumed:
                     E.trusted.add("clause of %s decided under %s and assumed here: %s" % (c.name, "/".join(sorted(props)), _txt[:80]))
                 s2 = s2.assume(E.spec_bool(e, s2, env2, st))
             if len(alts(c.returns)) > 1 and not E.feasible(s2):
